@@ -494,10 +494,13 @@ def run(ctx):
         progs = [FL.gen_program(rng, spec, ch) for _ in range(n_prog)]
         jobs.append((spec, progs, True))
     # categorical data columns with statistics (their bounds were in category order before C04's fix 24c37c3)
-    nconf = 10 if quick else 60
+    nconf = 18 if quick else 80
     for _ in range(nconf):
         spec = FL.gen_dataset(rng, kinds=["int"], allow_parts=False, cat=True)
-        spec["stats"] = True
+        # wave 7: ORDERED categoricals whose category order is not the label order (the generator shuffles the categories), with
+        # statistics: the bounds must enclose the LABELS present (what a filter constant is compared with), not the extreme codes
+        spec["cols"]["c"]["ordered"] = rng.random() < 0.6
+        spec["stats"] = True if rng.random() < 0.7 else ["c", "i"]
         ch = chunks_of(spec)
         progs = [FL.gen_program(rng, spec, ch, cols=["c", "c", "i"], wrong_type=0) for _ in range(12)]
         jobs.append((spec, progs, True))
